@@ -254,9 +254,9 @@ func init() {
 	register("C09", newC09)
 	register("C10", newC10)
 	register("C01", newC01)
-	register("C13", newC13)
-	register("C14", newC14)
-	register("C18", newC18)
+	register("C13", newC13, newC13Conc)
+	register("C14", newC14, newC14Conc)
+	register("C18", newC18, newC18Conc)
 	register("C19", newC19, newC19Conc)
 	register("C15", newC15)
 	register("C16", newC16)
